@@ -20,9 +20,11 @@ package crashmonitor
 //@   ensures result1 != nil ==> result0 == ""
 //@   ensures result1 == nil ==> len(result0) <= 4096
 //@   at call EncodeStack#1: assert len(arg0) <= 16 && len(arg0) >= 1 && arg1 == "crash/crash"
-//@   modifies $nopath, $fullname
+//@   modifies $nopath, $fullname, $child, $rawpc
 
 // parseStackPCs is total: no panic on any text, and the scan terminates.
+//@ ghost child int
+//@ ghost rawpc int
 //@ contract parseStackPCs
 // Lines are classified as received: the sentinel, goroutine-header and
 // running-status tests look at the raw line (the runtime indents continuation
@@ -34,9 +36,17 @@ package crashmonitor
 // The sentinel is taken from the first "sentinel " line only: later text that
 // looks like one cannot shift the program counters.
 //@   at call Sscanf#1: assert parentSentinel == 0
+// Relocation: every program counter reported is the number read from the frame's
+// line, moved from the parent's mapping of the text segment to this process's
+// (minus the parent's sentinel, plus this process's own), plus one exactly if the
+// frame follows runtime.sigpanic (a trap reports the faulting instruction, not a
+// return address).
+//@   at call sentinel#1: after ghost $child = int(result)
+//@   at call getPC#1: after ghost $rawpc = int(result0)
+//@   at call append#1: assert childSentinel == uint64($child) && uint64(arg1[0]) == uint64($rawpc) - parentSentinel + childSentinel + ite(prevSymbol == "runtime.sigpanic", uint64(1), uint64(0))
 //@   loop 1: invariant 0 <= i && i <= len(lines)
 //@   loop 1: decreases len(lines)-i
-//@   modifies nothing
+//@   modifies $child, $rawpc
 
 // getPC (the second function literal of parseStackPCs): the program counter is
 // read from the text after the LAST " pc=" of the line, the position of the
